@@ -476,6 +476,9 @@ def run(ck):
     from .common import reevaluate
     reevaluate(ck, 'C12.f', 'c17', lambda r, k: r in ('C17.a', 'C17.b', 'C17.c', 'C17.d') and k.startswith(('sink_put_chunk', 'sink_adapt')),
                'escape pairs are written with sink_put_chunk: it returns a driver error unchanged and writes both octets or fails')
+    ck.rule('C12.h', '"source or sink errors are returned unchanged" rests on the one-shot octet calls the codec reads and writes with: one driver call per request, the answer handed on as it is (C17.j re-evaluated) - a -EAGAIN in mid-frame reaches the caller, the decoder does not spin inside the library')
+    reevaluate(ck, 'C12.h', 'c17', lambda r, k: r == 'C17.j',
+               'rfc1055_decode / rfc1055_encode take and put single octets with source_get_octet / sink_put_octet')
     reevaluate(ck, 'C12.g', 'c17', lambda r, k: r == 'C17.g',
                'the encoder is fed through the buffer / chunk-list sources and stops at an answer of 0 or -ENODATA: they answer so only when no unread octet is left')
 
